@@ -625,6 +625,16 @@ impl Scenario for C11 {
                     ));
                     break;
                 }
+                // no request of the alphabet selects a point twice: a static point that was already
+                // reported in an earlier fragment of this series is a repetition
+                if let Some(m) = ms.iter().find(|m| !m.is_event && s.collected.iter().any(|c| !c.is_event && c.kind == m.kind && c.index == m.index)) {
+                    v = Some(Violation::new(
+                        "C11.S0",
+                        "point-reported-again-in-a-later-fragment",
+                        format!("{:?}[{}] appears again in fragment {} of the series", m.kind, m.index, s.frags + 1),
+                    ));
+                    break;
+                }
                 s.collected.extend(ms);
                 s.frags += 1;
                 s.next_seq = (s.next_seq + 1) & 0x0F;
@@ -711,7 +721,180 @@ fn scenarios(tier: &str) -> Vec<C11> {
     v
 }
 
+// ---------------------------------------------------------------------------------------
+// device attributes: a READ of g0 is answered by a series that ends
+// ---------------------------------------------------------------------------------------
+
+/// READ of all attributes (g0v254) / of the variation list (g0v255) of a private set with n
+/// attributes, confirmed fragment by fragment by an ideal master: the series is orderly, ends
+/// with FIN after a bounded number of fragments, never contains an empty non-final fragment,
+/// and -- when everything fits some fragment -- reports every attribute exactly once, ascending.
+struct AttrReads;
+
+const ATTR_COUNTS: [usize; 6] = [2, 40, 126, 127, 128, 199];
+
+impl crate::explore::CaseSpace for AttrReads {
+    fn name(&self) -> String {
+        "attribute-reads".into()
+    }
+    fn total(&self) -> usize {
+        ATTR_COUNTS.len() * 3 * 3 * 2
+    }
+    fn run(&self, index: usize, transcript: bool) -> RunResult {
+        use dnp3::app::attr::*;
+        let mut res = RunResult::default();
+        let n = ATTR_COUNTS[index % ATTR_COUNTS.len()];
+        let i = index / ATTR_COUNTS.len();
+        let tx = [249usize, 600, 2048][i % 3];
+        let i = i / 3;
+        let req_kind = i % 3; // 0 = all attributes, 1 = variation list, 2 = both
+        let long_strings = (i / 3) % 2 == 1;
+        res.obs = index as u64 + 110110;
+        let cfg = OCfg { sol_tx: tx, confirm_timeout_ms: TO, ..Default::default() };
+        let mut sim = OSim::new(&cfg, 1);
+        let mut defined: Vec<(u8, Vec<u8>)> = Vec::new(); // variation -> encoded value (type, len, data)
+        sim.db(|db| {
+            for v in 1..=n {
+                let (value, enc): (OwnedAttrValue, Vec<u8>) = if long_strings && v % 50 == 1 {
+                    let s = "x".repeat(250);
+                    let mut e = vec![1u8, 250];
+                    e.extend_from_slice(s.as_bytes());
+                    (OwnedAttrValue::VisibleString(s), e)
+                } else if v % 2 == 0 {
+                    (OwnedAttrValue::UnsignedInt(v as u32), vec![2, 1, v as u8])
+                } else {
+                    let s = format!("a{v}");
+                    let mut e = vec![1u8, s.len() as u8];
+                    e.extend_from_slice(s.as_bytes());
+                    (OwnedAttrValue::VisibleString(s), e)
+                };
+                if db.define_attr(AttrProp::default(), OwnedAttribute::new(AttrSet::new(1), v as u8, value)).is_ok() {
+                    defined.push((v as u8, enc));
+                }
+            }
+        });
+        sim.take_out();
+        let mut objs = Vec::new();
+        if req_kind != 1 {
+            objs.extend_from_slice(&[0, 254, 0x00, 1, 1]);
+        }
+        if req_kind != 0 {
+            objs.extend_from_slice(&[0, 255, 0x00, 1, 1]);
+        }
+        let key = format!("attributes:{}", ["all", "list", "all+list"][req_kind]);
+        sim.send(&app::request(1, fc::READ, &objs));
+        let mut frags: Vec<app::Resp> = Vec::new();
+        let mut finished = false;
+        for _round in 0..80 {
+            let rs: Vec<app::Resp> = sim.take_out().iter().filter_map(|t| t.frag()).filter_map(app::Resp::parse).collect();
+            if rs.is_empty() {
+                break;
+            }
+            let mut con = None;
+            for r in rs {
+                res.transitions += 1;
+                if transcript {
+                    res.transcript.push(format!("<- {} ({} object octets)", app::hex(&r.raw[..4]), r.objects.len()));
+                }
+                if r.con() {
+                    con = Some(r.seq());
+                }
+                if r.fin() {
+                    finished = true;
+                }
+                frags.push(r);
+            }
+            if finished {
+                break;
+            }
+            match con {
+                Some(s) => sim.send(&app::confirm(s, false)),
+                None => break,
+            }
+        }
+        if let Some(f) = sim.failure() {
+            res.violation = Some(Violation::new("C11.X0", f.clone(), f));
+            return res;
+        }
+        let what = format!("{n} attributes in set 1, tx {tx}, long strings {long_strings}");
+        if frags.is_empty() {
+            res.violation = Some(Violation::new("C11.A0", key, format!("{what}: READ not answered")));
+            return res;
+        }
+        if let Some(k) = frags.iter().position(|r| !r.fin() && r.objects.is_empty()) {
+            res.violation = Some(Violation::new(
+                "C11.A1",
+                key,
+                format!("{what}: fragment {} of the series is empty and not final (the series can never make progress); {} fragments seen", k + 1, frags.len()),
+            ));
+            return res;
+        }
+        if !finished {
+            res.violation = Some(Violation::new("C11.A2", key, format!("{what}: no final fragment after {} confirmed fragments", frags.len())));
+            return res;
+        }
+        for (k, r) in frags.iter().enumerate() {
+            if r.fir() != (k == 0) || r.seq() != ((1 + k as u8) & 0x0F) {
+                res.violation = Some(Violation::new("C11.A3", key, format!("{what}: fragment {} has FIR={} sequence {}", k + 1, r.fir(), r.seq())));
+                return res;
+            }
+        }
+        // contents: concatenate and walk
+        let mut all = Vec::new();
+        for r in &frags {
+            match app::walk(&r.objects, false) {
+                Ok(h) => all.extend(h),
+                Err(e) => {
+                    res.violation = Some(Violation::new("C11.A4", key, format!("{what}: a fragment does not decode: {e:?}")));
+                    return res;
+                }
+            }
+        }
+        let attrs: Vec<(u8, Vec<u8>)> = all.iter().filter(|h| h.group == 0 && h.var != 255).map(|h| (h.var, h.objects.first().map(|o| o.data.clone()).unwrap_or_default())).collect();
+        let lists: Vec<Vec<u8>> = all.iter().filter(|h| h.group == 0 && h.var == 255).map(|h| h.objects.first().map(|o| o.data.clone()).unwrap_or_default()).collect();
+        // an object that is larger than a whole fragment cannot be reported; everything else must be
+        let room = tx - 4;
+        if req_kind != 1 {
+            let want: Vec<(u8, Vec<u8>)> = defined.iter().filter(|(_, e)| 5 + e.len() <= room).cloned().collect();
+            if attrs != want {
+                let missing: Vec<u8> = want.iter().filter(|w| !attrs.contains(w)).map(|w| w.0).collect();
+                res.violation = Some(Violation::new(
+                    "C11.A5",
+                    key,
+                    format!("{what}: {} attributes reported, {} expected (each once, ascending); first missing / differing variations {:?}", attrs.len(), want.len(), &missing[..missing.len().min(8)]),
+                ));
+                return res;
+            }
+        }
+        if req_kind != 0 {
+            let list_len = 2 * defined.len();
+            let fits = 5 + 2 + list_len <= room;
+            if fits {
+                let mut want = Vec::new();
+                for (v, _) in &defined {
+                    want.push(*v);
+                    want.push(0);
+                }
+                let got: Vec<u8> = lists.first().map(|l| l[2..].to_vec()).unwrap_or_default();
+                if lists.len() != 1 || got != want {
+                    res.violation = Some(Violation::new("C11.A6", key, format!("{what}: variation list reported {} times, {} of {} octets", lists.len(), got.len(), want.len())));
+                    return res;
+                }
+            }
+        }
+        res.nontrivial = true;
+        res.model_states.push((frags.len() as u64) << 8 | req_kind as u64);
+        res
+    }
+}
+
 pub fn replay(scenario: &str, path: &[usize]) -> Option<RunResult> {
+    {
+        use crate::explore::CaseSpace;
+        if scenario == AttrReads.name() {
+            return Some(AttrReads.run(path[0], true));
+        }
+    }
     scenarios("thorough").into_iter().find(|s| s.name == scenario).map(|s| s.run(path, true))
 }
 
@@ -720,6 +903,7 @@ pub fn check(tier: &str) -> i32 {
     for s in scenarios(tier) {
         c.explore(&s);
     }
+    c.cases(&AttrReads);
     c.finish(
         "model_checking",
         "every event history over the listed alphabet (8-10 READ requests per database: class 0, class 1230, all objects, 8/16-bit ranges inside / overlapping / outside the index set, a specific variation, several headers; right / wrong / late solicited confirm, confirm timeout, another request, reconnect, update of a selected and of another point) up to the listed depth on five databases (packed binaries; eight types with sparse indices; 100 analogs; binaries with mixed flags; 60 analogs followed by binaries whose *flags* are updated while the series is under way) and three transmit buffer sizes; a mirrored database is snapshotted when each READ is delivered and the concatenated series is compared with it; non-trivial = a series completed (and spanned several fragments for the small buffers); distinct = distinct observation trace",
